@@ -11,6 +11,13 @@
 //	{"kind":"calls","pkg":DIR,"func":F,"as":L}          F is "Func" or "Recv.Method"; → List String
 //	{"kind":"cases","pkg":DIR,"func":F,"as":L}          case types/values of every switch in F → List String
 //	{"kind":"funcs","pkg":DIR,"prefix":P,"as":L}        names of top-level funcs with prefix P → List String
+//	{"kind":"versions","pkg":DIR,"name":SLICE,"as":L}   slice literal of `v(protocol, names…)` variables (version.Versions) →
+//	                                                    L : List (String × Int) in slice order, plus `LV.<GoVar> : Int` for every v(…) variable
+//	{"kind":"registry","pkg":DIR,"versions":VDIR,"as":L} the packet-id mapping table written in the package's `init`
+//	                                                    (`<Reg>.<Dir>.Register(&pkg.T{}, m(id, version.X), ml(id, version.X, version.Y) …)` and
+//	                                                    `<Reg>.<Dir>.Fallback = b`), see registry.go in this directory
+//	{"kind":"lits","pkg":DIR,"func":F,"as":L}           composite-literal type names inside F → List String
+//	{"kind":"strlits","pkg":DIR,"func":F|"name":V,"as":L} string literals inside func F / var V initialiser, source order → List String
 // It fails loudly (exit 2) if something asked for no longer exists.
 package main
 
@@ -31,6 +38,7 @@ import (
 
 type fact struct {
 	Kind, Pkg, Name, Func, Prefix, As string
+	Versions                          string // "registry": directory of the version package
 }
 type spec struct {
 	ID    string `json:"id"`
@@ -496,6 +504,21 @@ func main() {
 			cs := caseList(fn)
 			fmt.Fprintf(&sb, "/-- %s: switch cases of %s -/\ndef %s : List String := %s\n\n", f.Pkg, f.Func, f.As, leanList(cs))
 			summary[f.As] = cs
+		case "lits":
+			// composite literal type names in a function body, in source order (e.g. "&fullReader{…}" → "fullReader")
+			fn, ok := p.funcs[f.Func]
+			if !ok {
+				die("%s: func %s not found in %s", sp.ID, f.Func, f.Pkg)
+			}
+			var ls []string
+			ast.Inspect(fn, func(m ast.Node) bool {
+				if cl, ok := m.(*ast.CompositeLit); ok && cl.Type != nil {
+					ls = append(ls, exprName(cl.Type))
+				}
+				return true
+			})
+			fmt.Fprintf(&sb, "/-- %s: composite literals in %s -/\ndef %s : List String := %s\n\n", f.Pkg, f.Func, f.As, leanList(ls))
+			summary[f.As] = ls
 		case "funcs":
 			var names []string
 			for n := range p.funcs {
@@ -506,6 +529,12 @@ func main() {
 			sort.Strings(names)
 			fmt.Fprintf(&sb, "/-- %s: funcs with prefix %s -/\ndef %s : List String := %s\n\n", f.Pkg, f.Prefix, f.As, leanList(names))
 			summary[f.As] = names
+		case "versions":
+			emitVersions(&sb, summary, sp.ID, p, f)
+		case "registry":
+			emitRegistry(&sb, summary, sp.ID, p, load(*repo, f.Versions), f)
+		case "strlits":
+			emitStrLits(&sb, summary, sp.ID, p, f)
 		default:
 			die("unknown fact kind %q", f.Kind)
 		}
